@@ -1767,3 +1767,169 @@ func isLexerStart(p *an.Prog, f *ssa.Function) bool {
 	b, ok := pt.Underlying().(*types.Basic)
 	return ok && b.Kind() == types.String
 }
+
+// ---------------------------------------------------------------------------
+// X18
+
+func init() {
+	register("X18", "the contains operator is answered by the left value's Contains method applied to the right value, and by nothing else: every result of the evaluation step that calls Contains is that call's result", runX18)
+}
+
+// runX18: `a contains b` is substring, membership by == or map key - all of it decided inside the value
+// wrappers' Contains. The evaluation step of package expressions that invokes Contains must return that
+// call's result on every path (a shortcut for a nil, empty or ill-typed operand answers without asking
+// the wrapper, and differently from ==), with the left operand as the receiver and the right one as the
+// argument.
+func runX18(p *an.Prog, r *an.Result) {
+	pkg := p.Package("expressions")
+	if pkg == nil {
+		r.Bad("-", "package expressions not found", token.NoPos, "anchor not resolved")
+		return
+	}
+	for _, fn := range p.Funcs {
+		if fn.Pkg != pkg && (fn.Parent() == nil || an.Outermost(fn).Pkg != pkg) {
+			continue
+		}
+		if p.IsGenerated(an.FuncPos(fn)) {
+			continue
+		}
+		var calls []*ssa.Call
+		an.EachInstr(fn, func(in ssa.Instruction) {
+			if c, ok := in.(*ssa.Call); ok && c.Call.IsInvoke() && c.Call.Method.Name() == "Contains" && isNamedIn(c.Call.Value.Type(), "values", "Value") {
+				calls = append(calls, c)
+			}
+		})
+		if len(calls) == 0 {
+			continue
+		}
+		name := an.FuncName(fn)
+		r.Counts["contains evaluation steps"]++
+		if len(calls) > 1 {
+			r.Bad(name, "more than one Contains call in one evaluation step", calls[1].Pos(), "one operator, one question to the left value")
+			continue
+		}
+		call := calls[0]
+		fromCall := func(v ssa.Value) bool {
+			seen := map[ssa.Value]bool{}
+			var visit func(v ssa.Value, d int) bool
+			visit = func(v ssa.Value, d int) bool {
+				if v == nil || seen[v] || d > 8 {
+					return false
+				}
+				seen[v] = true
+				if v == ssa.Value(call) {
+					return true
+				}
+				switch x := v.(type) {
+				case *ssa.MakeInterface:
+					return visit(x.X, d+1)
+				case *ssa.ChangeInterface:
+					return visit(x.X, d+1)
+				case *ssa.ChangeType:
+					return visit(x.X, d+1)
+				case *ssa.Call:
+					// a wrapper of the boolean: values.ValueOf(b), a module helper handed b alone
+					if callee := x.Call.StaticCallee(); callee != nil && p.InModule(callee) && len(x.Call.Args) == 1 {
+						return visit(x.Call.Args[0], d+1)
+					}
+				}
+				return false
+			}
+			return visit(v, 0)
+		}
+		an.EachInstr(fn, func(in ssa.Instruction) {
+			ret, ok := in.(*ssa.Return)
+			if !ok {
+				return
+			}
+			res := resultsOf(ret)
+			if len(res) == 0 {
+				return
+			}
+			if fromCall(res[0]) {
+				r.OK(name, "contains result is the Contains call's", ret.Pos(), "ValueOf(left.Contains(right))")
+				return
+			}
+			// every origin is the call (a phi of nothing else)
+			all := true
+			os := an.Origins(res[0], an.StepValue)
+			for _, o := range os {
+				if !fromCall(o) {
+					all = false
+				}
+			}
+			if all && len(os) > 0 {
+				r.OK(name, "contains result is the Contains call's", ret.Pos(), "every origin of the result is the call")
+			} else {
+				r.Bad(name, "contains answered without the left value's Contains", ret.Pos(), fmt.Sprintf("%s returns a result that is not %s's: a shortcut decides `contains` for some operands (nil, empty, ill-typed) without asking the wrapper, which is where substring, membership by == and map key are defined", name, "(values.Value).Contains"))
+			}
+		})
+		// receiver = the first operand, argument = the second: by the order of the captured evaluators
+		evalOf := func(v ssa.Value) ssa.Value {
+			for _, o := range an.Origins(v, an.StepValue) {
+				if c, ok := o.(*ssa.Call); ok && c.Call.StaticCallee() == nil && !c.Call.IsInvoke() {
+					f := c.Call.Value
+					if u, ok := f.(*ssa.UnOp); ok {
+						f = u.X
+					}
+					return f
+				}
+			}
+			return nil
+		}
+		recv, arg := evalOf(call.Call.Value), evalOf(call.Call.Args[0])
+		fvIndex := func(v ssa.Value) int {
+			for i, fv := range fn.FreeVars {
+				if v == ssa.Value(fv) {
+					return i
+				}
+			}
+			return -1
+		}
+		ri, ai := fvIndex(recv), fvIndex(arg)
+		if ri < 0 || ai < 0 {
+			r.Triv(name, "operand order of contains", call.Pos(), "operands are not both captured evaluators: not decided here")
+			continue
+		}
+		// the captures are the builder's parameters, in order
+		par := fn.Parent()
+		order := func(fv int) int {
+			if par == nil {
+				return -1
+			}
+			var bound ssa.Value
+			an.EachInstr(par, func(in ssa.Instruction) {
+				if mc, ok := in.(*ssa.MakeClosure); ok && mc.Fn == ssa.Value(fn) && fv < len(mc.Bindings) {
+					bound = mc.Bindings[fv]
+				}
+			})
+			for _, o := range an.Origins(bound, an.StepBase) {
+				for i, pp := range par.Params {
+					if o == ssa.Value(pp) {
+						return i
+					}
+				}
+				if al, ok := o.(*ssa.Alloc); ok {
+					for _, st := range an.Stores(al) {
+						for i, pp := range par.Params {
+							if st == ssa.Value(pp) {
+								return i
+							}
+						}
+					}
+				}
+			}
+			return -1
+		}
+		ro, ao := order(ri), order(ai)
+		switch {
+		case ro < 0 || ao < 0:
+			r.Triv(name, "operand order of contains", call.Pos(), "captures are not the builder's parameters: not decided here")
+		case ro < ao:
+			r.OK(name, "operand order of contains", call.Pos(), "left.Contains(right)")
+		default:
+			r.Bad(name, "operand order of contains", call.Pos(), "the receiver of Contains is the builder's later operand: `a contains b` asks b whether it contains a")
+		}
+	}
+	r.Floor("contains evaluation steps", 1)
+}
